@@ -2,7 +2,9 @@
 // decoded (signature hash and topic count).
 //
 // Part A judges the pure functions dig.Event.Signature / SignatureHash on an
-// exhaustive small scope of declarations; part B drives the real
+// exhaustive small scope of declarations; part L walks the LENGTH of the canonical
+// signature (every length of a range, several construction families) with the
+// same oracle plus prefix-hash decoy logs at the gate; part B drives the real
 // dig.Integration.Insert with a fake wpg.Conn over an alphabet of logs (alone
 // and in ordered pairs) and counts which logs produced rows.
 package c13
@@ -21,7 +23,7 @@ const prop = "C13"
 
 // kase is the replayable description of one case (all parts).
 type kase struct {
-	Part       string      `json:"part"` // "A" enumerated declaration, "K" published vector, "E" hand-written edge, "B" gate, "H" history
+	Part       string      `json:"part"` // "A" enumerated declaration, "K" published vector, "E" hand-written edge, "B" gate, "H" history, "L" signature length
 	Name       string      `json:"name,omitempty"`
 	Inputs     []*ref.Node `json:"inputs,omitempty"`
 	Indexed    []bool      `json:"indexed,omitempty"`
@@ -32,15 +34,17 @@ type kase struct {
 	Slots      []slotT     `json:"slots,omitempty"`      // H: integrations built in sequence
 	Interleave bool        `json:"interleave,omitempty"` // H
 	Full       bool        `json:"full,omitempty"`       // H: full log alphabet
+	Set        string      `json:"set,omitempty"`        // L: which case of the declaration (Name = family, Index = signature length)
 }
 
 func init() {
 	checks.Register(&checks.Check{
 		ID:        "C13",
 		Level:     "exploration",
-		Technique: "small-scope exhaustive enumeration: (A) event names x ABI type trees x indexed layouts judged against an independent canonicaliser + independent Keccak-256 and a table of published topic0 hashes; (B) real dig.Integration.Insert on a fake wpg.Conn over a log alphabet (alone and all ordered pairs), rows attributed to logs by log_idx",
+		Technique: "small-scope exhaustive enumeration: (A) event names x ABI type trees x indexed layouts judged against an independent canonicaliser + independent Keccak-256 and a table of published topic0 hashes; (L) a signature-LENGTH family: declarations whose canonical signature has exactly n bytes for every n of a contiguous range and around larger powers of two, each judged by the same oracle and gated against the log of the event and decoy logs carrying the Keccak-256 of proper prefixes of the signature; (B) real dig.Integration.Insert on a fake wpg.Conn over a log alphabet (alone and all ordered pairs), rows attributed to logs by log_idx",
 		Rule: "A: names {T,Transfer,a_b1,X9} x every input list of 0..3 inputs whose type trees (leaf | T[] | T[k], k in {1,2,10,12} | tuple of 1..3 fields, tuple nesting <= 3, multi-dimensional arrays) total <= 4 nodes over 8 leaf spellings plus exactly 5 nodes over 4 leaf spellings {uint256,address,bytes,bytes32} " +
 			"(thorough: <= 5 nodes over 8 leaf spellings plus exactly 6 nodes over the 4) x every indexed layout; plus 17 published (declaration, topic0) vectors (Seaport OrderFulfilled as JSON-ABI text) and 8 hand-written edge declarations given as JSON-ABI text. Non-trivial = declaration contains a tuple or an array. " +
+			"L (signature length): for every length n in 4..300 and 511,512,513,1023,1024,1025 (thorough: 4..700 and 2^k-1,2^k,2^k+1 up to 2049) x 6 construction families (event name padded behind a fixed ERC-20 input list / behind (uint256 indexed,(uint256,bytes)); inputs added to a flat list cycling over {uint256,address,bytes,bool,string} / nesting levels added to (uint8,(uint8,...bytes32)) / to alternately dynamic and fixed tuple arrays / tuple-array inputs added to a Seaport-like list; the remaining bytes go into the name) one declaration whose reference signature has exactly n bytes (none when n is below the family's minimum): Signature and SignatureHash judged against the reference; for the 4 families without arrays additionally a fresh Integration per log set for: the log of the event alone; ONE tx holding, for EVERY proper prefix length p < n, a log with the matching topic count whose topic0 is Keccak-256(signature[:p]), with the log of the event in the middle; and each such prefix log alone for the buffer-size boundaries p in {0, n-1, 2^k-1, 2^k, 2^k+1 (k>=2), 136m-1, 136m, 136m+1}. Non-trivial = n > 32 (hash cases) / log set contains a prefix decoy (gate cases). " +
 			"B: events 'Transfer' with 1..3 inputs over {uint256,address,bytes} indexed or not and a tuple (uint256,bytes) indexed or not (thorough: also string,bool), x every selection pattern (each input with or without a column, at least one selected; an indexed tuple is never selected; unselected non-indexed inputs are still carried in the data); per integration 46 logs " +
 			"(9 topic0 variants x 1..5 topics, plus the empty topic list), each alone and every ordered pair in one tx (quick tier, integrations with an unselected input: only the pairs in which at least one log carries the declared hash or no topics, 562 instead of 2162 log sets), fresh Integration per log set. The expected topic count is always (indexed inputs of the DECLARATION)+1, whatever is selected. Non-trivial = log set contains a non-matching log. " +
 			"H (history inside one case): sequences of k in {2,3} integrations built one after the other in one process, each slot = one of 18 events ({Transfer,Approval} x 9 input lists incl. indexed string/bytes/uint256[]/uint256[2] topics, selected or not) built fresh inside the case, or THE SAME declaration object as an earlier slot; x {no interleaving, Signature/SignatureHash of the slot's own declaration and of a foreign event after every dig.New}; " +
@@ -51,7 +55,8 @@ func init() {
 			"part B judges WHICH logs produce rows (count per log, attributed by the log_idx column), not the other column values (C11); arrays are not used in part B so that a matching log yields exactly one row",
 			"part B selects at least one input (a selected input is required for log indexing); an indexed tuple with selected components is not enumerated (its components cannot be read from topics)",
 			"configurations are completed by config.ValidateFix and handed to dig.New exactly as shovel/task.go NewDestination does; no filters, no notifications, so only CopyFrom of the fake connection is used",
-			"logs with 5 topics (impossible on chain, representable in eth.Log) are included so that 'more topics than indexed inputs' is covered for 3 indexed inputs",
+			"part L: event names of up to several hundred bytes and input lists of up to ~150 inputs (~300 in the thorough tier) are legal ABI and are treated as in the domain of 'all event names and input type trees'; the prefix decoys are logs of OTHER events by construction (a Keccak-256 collision between a signature and one of its proper prefixes is assumed impossible)",
+		"logs with 5 topics (impossible on chain, representable in eth.Log) are included so that 'more topics than indexed inputs' is covered for 3 indexed inputs",
 		},
 		Budget:        map[string]time.Duration{"quick": 240 * time.Second, "thorough": 800 * time.Second},
 		MinNontrivial: 100000,
@@ -67,6 +72,9 @@ func pin() { runtime.GOMAXPROCS(1) }
 func run(c *fw.Ctx) {
 	pin()
 	runA(c)
+	if c.Res.Exhaustive {
+		runL(c)
+	}
 	if c.Res.Exhaustive {
 		runH(c)
 	}
@@ -118,6 +126,8 @@ func replay(c *fw.Ctx, raw json.RawMessage) {
 			logs = append(logs, lb)
 		}
 		evalB(c, ev, logs)
+	case "L":
+		replayL(c, k)
 	case "H":
 		evalH(c, k.Slots, k.Interleave, k.Full)
 	default:
